@@ -80,9 +80,32 @@ def gen_bdry(wd):
     open(os.path.join(wd, "c09_lr_bdry.inc"), "w").write(slicer.functions(DPR, ["dec_save_lf_boundary_lines_sb_row"]))
 
 
+LFC = "Source/Lib/Decoder/Codec/EbDecLF.c"
+
+
+def gen_lf(wd):
+    src = slicer.read(LFC)
+    f = slicer.function(src, "dec_loop_filter_row")
+    a = f.find("        /* Top-Right Sync*/")
+    b = f.find("        /*LF function for a SB*/", a)
+    if a < 0 or b < 0:
+        raise RuntimeError("Top-Right Sync block not found in dec_loop_filter_row")
+    blk, n = re.subn(r"while \((\*sb_lf_completed_in_prev_row[^;]*?)\)\s*;", r"if (\1) return 0; /* spin-wait of the original turned into a test */", f[a:b], flags=re.S)
+    if n != 1:
+        raise RuntimeError("spin-wait of dec_loop_filter_row not recognised")
+    m = re.search(r"^\s*\*sb_lf_completed_in_row = [^;]*;", f, re.M)
+    if not m:
+        raise RuntimeError("completion update of dec_loop_filter_row not found")
+    with open(os.path.join(wd, "c09_lf_sync.inc"), "w") as o:
+        o.write("/* sliced verbatim from dec_loop_filter_row (EbDecLF.c) */\n"
+                "static int lf_sync_try(uint32_t y_sb_index, int32_t x_sb_index, int32_t pic_width_in_sb, volatile int32_t *sb_lf_completed_in_prev_row) {\n"
+                + blk + "    return 1;\n}\n"
+                "static void lf_mark_done(int32_t x_sb_index, int32_t *sb_lf_completed_in_row) {\n" + m.group(0) + "\n}\n")
+
+
 META = {
     "engine": "E5 symbolic scheduler",
-    "level_text": "FOUR mechanisms of the property: the per-superblock-row saving of loop-restoration stripe context (every stripe of the frame covered), and the row-to-row synchronisation of the multi-threaded reconstruction stage (decode_tile_row), of the CDEF stage (svt_cdef_sb_row_mt) and of the loop-restoration stage (dec_av1_loop_restoration_filter_row). Their synchronisation statements (sliced verbatim; the spin-wait is turned into a non-blocking test) run under every schedule of one worker per superblock row, for pictures 1..4 superblocks wide and 3 rows high: a superblock is filtered only after the superblocks above and above-right were filtered, and a row whose upper row is complete is never blocked.",
+    "level_text": "FOUR mechanisms of the property: the per-superblock-row saving of loop-restoration stripe context (every stripe of the frame covered), and the row-to-row synchronisation of the multi-threaded reconstruction stage (decode_tile_row), of the loop-filter stage (dec_loop_filter_row), of the CDEF stage (svt_cdef_sb_row_mt) and of the loop-restoration stage (dec_av1_loop_restoration_filter_row). Their synchronisation statements (sliced verbatim; the spin-wait is turned into a non-blocking test) run under every schedule of one worker per superblock row, for pictures 1..4 superblocks wide and 3 rows high: a superblock is filtered only after the superblocks above and above-right were filtered, and a row whose upper row is complete is never blocked.",
     "level_note": "Everything else the property states is NOT decided: tile parse / loop-filter / loop-restoration hand-offs, stage-to-stage hand-offs, data races in general, hangs of the whole pipeline, equality with single-thread output (the decoder's job bodies cannot be executed symbolically; see DESIGN.md). Teardown after multi-threaded decoding is decided under C15, the mode-info map bounds under C10.",
     "technique": "CBMC bounded symbolic execution with a symbolic row schedule over verbatim slices of the synchronisation statements",
     "assumptions": ["cdef_completed_in_row is zeroed at the start of the frame (memset in svt_av1_queue_cdef_jobs)", "one thread works on a row from left to right (get_sb_row_to_process hands out whole rows)"],
@@ -103,6 +126,10 @@ def queries(tier):
                   funcs=[LR + ":dec_av1_loop_restoration_filter_row (Top-Right Sync block and completion update, sliced)"],
                   bound="every tile width needing %d processing unit(s) of 64 samples, 3 superblock rows, every schedule of the three row workers" % w,
                   what="top and top-right units are restored before a unit starts; no blocked row when its upper row is complete") for w in (1, 2, 3, 4)] + \
+           [Query(name="lf_row_sync_%dwide" % w, harness="C09/lf_sync.c", gen=gen_lf, defines=["PW=%d" % w, "PR=3"], unwind=3 * w + 3, timeout=600,
+                  funcs=[LFC + ":dec_loop_filter_row (Top-Right Sync block and completion update, sliced)"],
+                  bound="picture %d superblock(s) wide, 3 superblock rows, every schedule of the three row workers" % w,
+                  what="top and top-right superblocks are loop-filtered before a superblock starts; no blocked row when its upper row is complete") for w in (1, 2, 3, 4)] + \
            [Query(name="lr_stripe_context_saved_for_every_stripe", harness="C09/lr_bdry.c", gen=gen_bdry, unwind=10, timeout=600, flags=["--slice-formula"],
                   funcs=[DPR + ":dec_save_lf_boundary_lines_sb_row"], bound="every even frame height 16..384, superblock 64 and 128, luma plane",
                   what="the per-superblock-row saver of the multi-threaded pipeline saves the deblocked above/below context of every restoration stripe of the frame")]
